@@ -239,7 +239,12 @@ func scenario(p params, bounds []int) *vexp.Scenario {
 						delete(view.Members, id)
 						continue
 					}
-					ms = append(ms, fmt.Sprintf("%s#g%d.c%d", key, m.Generation, m.LogicalClock))
+					st := ""
+					if m.Status != cluster.MemberStatusUp {
+						st = fmt.Sprintf("!status=%d", m.Status) // a running node that somebody does not consider Up
+						x.Fail("running-members-are-up", "at the horizon node %s lists the running node %s with status %d (not Up)", nd.address, key, m.Status)
+					}
+					ms = append(ms, fmt.Sprintf("%s#g%d.c%d%s", key, m.Generation, m.LogicalClock, st))
 				}
 				sort.Strings(ms)
 				sort.Strings(dead)
@@ -360,6 +365,16 @@ func build(tier string) []*vexp.Scenario {
 			add(params{n: 3, seeds: seeds, offsets: std, fd: 0, faults: []fault{{at, "restart-moved", 2, 0}}}, b0)
 			add(params{n: 3, seeds: seeds, offsets: std, fd: 4 * s, faults: []fault{{at, "restart-moved", 2, 0}}}, b0)
 			add(params{n: 3, seeds: seeds, offsets: std, fd: 0, faults: []fault{{at, "restart-moved", 2, 0}, {at + 4*s, "restart-moved", 2, 0}}}, b0)
+		}
+	}
+	// suspicion without removal: SuspectConfirmDuration > 0 and a partition longer than the failure-detection timeout but shorter
+	// than timeout + confirmation; the suspected nodes must be rehabilitated once they are heard again
+	for _, at := range []time.Duration{3 * s, 5 * s} {
+		for _, dur := range []time.Duration{5 * s, 6500 * ms} {
+			add(params{n: 2, seeds: "one", offsets: std[:2], fd: 4 * s, confirm: 4 * s, faults: []fault{{at, "partition", 0, 1}, {at + dur, "heal", 0, 1}}}, b0)
+			add(params{n: 3, seeds: "one", offsets: std, fd: 4 * s, confirm: 4 * s, faults: []fault{{at, "partition", 0, 2}, {at + dur, "heal", 0, 2}}}, b0)
+			add(params{n: 3, seeds: "two", offsets: std, fd: 4 * s, confirm: 4 * s, faults: []fault{{at, "partition", 1, 2}, {at + dur, "heal", 1, 2}}}, b0)
+			add(params{n: 3, seeds: "one", offsets: std, fd: 4 * s, confirm: 4 * s, faults: []fault{{at, "partition", 0, 2}, {at, "partition", 1, 2}, {at + dur, "heal", 0, 2}, {at + dur, "heal", 1, 2}}}, b0)
 		}
 	}
 	if tier == "thorough" {
